@@ -117,6 +117,7 @@ type SelfTestSpec struct {
 	ExpectRule      string `json:"expect_rule"`
 	ExpectConstruct string `json:"expect_construct_contains,omitempty"`
 	ExpectSilent    bool   `json:"expect_silent,omitempty"` // a behaviour-preserving edit: the rule set must report nothing
+	KnownFalseAlarm string `json:"known_false_alarm,omitempty"` // documented limitation: this edit is known to make a rule undecided
 	Config          string `json:"config,omitempty"`        // build configuration under which the mutant is visible (default: host)
 	Origin          string `json:"origin"`
 	What            string `json:"what"`
@@ -224,6 +225,9 @@ func RunSelfTest(r *Report, self, repo, verifDir, known string) {
 				for _, o := range ev.Coverage.All {
 					if o.Status == "violation" {
 						rw.Outcome = "FALSE-ALARM"
+						if spec.KnownFalseAlarm != "" {
+							rw.Outcome = "false alarm (documented limitation: " + spec.KnownFalseAlarm + ")"
+						}
 						rw.Reported = o.Rule + " [" + o.Construct + "]"
 						break
 					}
@@ -245,6 +249,10 @@ func RunSelfTest(r *Report, self, repo, verifDir, known string) {
 	for _, rw := range rows {
 		if rw.Expect == "(silent)" {
 			nbenign++
+		}
+		if strings.HasPrefix(rw.Outcome, "false alarm (documented") {
+			fmt.Printf("selftest %s: %s\n", rw.Name, rw.Outcome)
+			continue
 		}
 		switch rw.Outcome {
 		case "silent":
